@@ -17,7 +17,7 @@ SCHED_SRC = ["vx/vx.c", "sched/sched.c", "h/h_c19.c"]
 FREE_SRC = ["vx/vx.c", "h/h_c19.c"]
 INC = ["-I", os.path.join(vlib.VERIF, "sched")]
 
-BODIES = {1: "post", 2: "queue", 3: "worker", 4: "timer", 5: "console"}
+BODIES = {1: "post", 2: "queue", 3: "worker", 4: "timer", 5: "console", 6: "pileup", 7: "event"}
 
 
 def build(ck):
@@ -36,11 +36,18 @@ RULE = ("every schedule with at most P preemptions (P = budget; switches forced 
         "(one or two ops per thread) against a main thread doing 3 timed async_runtime_wait + a final drain; "
         "[queue] capacity 2 x {fail, DROP_OLDEST, BLOCK_WRITER}, 2 producers x 2 enqueues, 1 consumer (4 dequeues; for BLOCK_WRITER "
         "polls until it has 4), history checked by brute-force linearizability + statistics; "
-        "[worker] 12 scripts over {signal_stop, join(20), join(-1), sleep} x 3 worker behaviours (runs until stopped / returns at once / "
-        "returns by itself after two rounds), then destroy; "
+        "[worker] 16 scripts over {signal_stop, join(20), join(-1), sleep} x 4 worker behaviours (polls should_stop until stopped / returns at once / "
+        "returns by itself after two rounds / interruptible sleep: platform_event_wait(stop_event, 5 ms) in a should_stop loop), then destroy; "
         "[timer] 4 scripts (start-ticks-stop-cleanup, stop-at-once + restart + cleanup-without-stop, double start/stop, heart-beat pattern "
         "with async_runtime_wakeup from the callback); "
         "[console] the real console worker reading 2 or 3 lines from a pipe on fd 0, main drains as process_io() does, then shutdown(5000); "
+        "[pileup] notification pipe given a logical capacity of 3 records (O_NONBLOCK honoured per descriptor exactly as the code set it: full + blocking "
+        "= the writer blocks, full + non-blocking = EAGAIN): a worker posts 5 completions while nobody waits, then signal_stop + join(50) / join(-1) must "
+        "return true and the accepted posts are drained exactly once in order; a 1 ms timer whose callback calls async_runtime_wakeup ticks > 3 times "
+        "while nobody waits, platform_timer_stop must return, accepted wake-ups == delivered; "
+        "[event] platform_event_t with two waiter threads: manual-reset x {timed+timed, timed+infinite, infinite+infinite} with one set(), auto-reset x "
+        "{infinite+infinite, timed+infinite} with two set(): every infinite waiter released, a manual-reset event stays signalled until reset, auto-reset "
+        "accounting sets == released + still-signalled; "
         "scheduling points: pthread_create/join, mutex lock/trylock/unlock, cond wait/timedwait/clockwait/signal/broadcast, nanosleep/usleep, "
         "clock_gettime, epoll_wait, select, read/write on eventfd and the console pipe; virtual clock; CHESS fairness for yielding threads; "
         "horizon 700 scheduling points per execution; no state merging (plain stateless DFS)")
@@ -86,23 +93,27 @@ def run(ck):
     exe, free, hb = exes["h_c19"], exes["h_c19_free"], exes["h_c19_hb"]
     ck.confirm = _tsan_confirm(ck, ck.confirm)
     if ck.tier == "quick":
-        dl, iters, el_ms = 150, 300, 12000
+        dl, iters, el_ms = 150, 300, 24000
         ck.explore(exe, ["--body=1", "--waits=3"], "post", budget=2, deadline_s=dl)
         ck.explore(exe, ["--body=2"], "queue", budget=2, deadline_s=dl)
         ck.explore(exe, ["--body=3"], "worker", budget=3, deadline_s=dl)
         ck.explore(exe, ["--body=4"], "timer", budget=3, deadline_s=dl)
         ck.explore(exe, ["--body=5", "--waits=6"], "console", budget=2, deadline_s=dl)
+        ck.explore(exe, ["--body=6"], "pileup", budget=2, deadline_s=dl)
+        ck.explore(exe, ["--body=7"], "event", budget=2, deadline_s=dl)
     else:
         # bound 3 everywhere (DESIGN), and one more where it is cheap
-        dl, iters, el_ms = 1500, 1000, 40000
+        dl, iters, el_ms = 1500, 1000, 80000
         ck.explore(exe, ["--body=1", "--waits=3"], "post", budget=4, deadline_s=dl)
         ck.explore(exe, ["--body=2", "--vmask=3"], "queue-fail-drop", budget=4, deadline_s=dl)
         ck.explore(exe, ["--body=2", "--vmask=4"], "queue-block", budget=3, deadline_s=dl)
         ck.explore(exe, ["--body=3"], "worker", budget=5, deadline_s=dl)
         ck.explore(exe, ["--body=4"], "timer", budget=5, deadline_s=dl)
         ck.explore(exe, ["--body=5", "--waits=8"], "console", budget=4, deadline_s=dl)
+        ck.explore(exe, ["--body=6"], "pileup", budget=4, deadline_s=dl)
+        ck.explore(exe, ["--body=7"], "event", budget=4, deadline_s=dl)
     sched_parts = list(ck.parts)
-    ck.enum(free, ["--iters=%d" % iters], "tsan", batch=1, deadline_s=dl, timeout_ms=el_ms, rotate=0)
+    ck.enum(free, ["--iters=%d" % iters, "--watchdog-ms=%d" % (el_ms * 3 // 4)], "tsan", batch=1, deadline_s=dl, timeout_ms=el_ms, rotate=0)
     tsan = ck.parts[-1] if len(ck.parts) > len(sched_parts) else {}
     ck.enum(hb, ["--iters=%d" % iters], "tsan-backend", batch=1, deadline_s=dl, timeout_ms=el_ms, rotate=0)
     tsb = ck.parts[-1] if ck.parts and ck.parts[-1].get("part") == "tsan-backend" else {}
@@ -113,6 +124,7 @@ def run(ck):
         "pruned": 0,
         "tsan_pass": {"elements": tsan.get("evaluations"), "iterations_each": iters,
                       "iterations_total": tsan.get("counters", {}).get("free_running_iterations"),
+                      "elements_ended_by_watchdog": tsan.get("counters", {}).get("free_running_elements_ended_by_watchdog"),
                       "ordering_oracle_hits_not_deciding": tsan.get("counters", {}).get("free_running_oracle_hits_not_deciding"),
                       "race_keys": sorted(k for k in tsan.get("fail_keys", {}) if k.startswith("tsan:"))},
         "tsan_backend_pass": {"what": "real backend() loop with a 500 us heart-beat timer (wrap/w_backend_c19.c changes only HEARTBEAT_INTERVAL), one heart-beat object",
@@ -134,7 +146,9 @@ def selftest(ck):
              ("queue-obs", ["--body=2", "--vmask=1", "--selftest=2"], 0, "C19:queue:not-linearizable"),
              ("worker-obs", ["--body=3", "--vmask=1", "--selftest=3"], 0, "C19:worker:callback-after-join"),
              ("timer-obs", ["--body=4", "--vmask=1", "--selftest=4"], 0, "C19:timer:callback-after-stop"),
-             ("console-obs", ["--body=5", "--vmask=1", "--waits=5", "--selftest=5"], 0, "C19:console:line-lost")]
+             ("console-obs", ["--body=5", "--vmask=1", "--waits=5", "--selftest=5"], 0, "C19:console:line-lost"),
+             ("pileup-obs", ["--body=6", "--vmask=1", "--selftest=6"], 0, "C19:pileup:accepted-not-delivered-exactly-once-in-order"),
+             ("event-obs", ["--body=7", "--vmask=1", "--selftest=7"], 0, "C19:event:manual-reset-event-consumed-by-a-wait")]
     for tag, args, budget, want in cases:
         ck2 = vlib.Check("C19", "quick", 0, LEVEL)
         ck2.explore(exe, args, "selftest-" + tag, budget=budget, jobs=8)
